@@ -492,7 +492,7 @@ type vfC27Diff struct {
 }
 
 // vfC27Hunt evaluates the property on bounded subjects. Returns the first difference per kind.
-func vfC27Hunt(r *vfRand, p string, a0, a1, a2 *syntax.Regexp, maxLen, extra int) (diffs []vfC27Diff, nsub int, engineSamples [][2]string) {
+func vfC27Hunt(r *vfRand, p string, a0, a1, a2, a3 *syntax.Regexp, maxLen, extra int) (diffs []vfC27Diff, nsub int, engineSamples [][2]string) {
 	alpha := vfC27Alphabet(r, a0, a1, a2)
 	subs := vfC27Subjects(r, alpha, maxLen, extra)
 	nsub = len(subs)
@@ -523,6 +523,11 @@ func vfC27Hunt(r *vfRand, p string, a0, a1, a2 *syntax.Regexp, maxLen, extra int
 			}
 			if s2 := vfSetStr(vfReEnds(a2, t, i)); s2 != s0 {
 				rep("optimize-changes-language", t, fmt.Sprintf("start %d: ends(a0)=%s ends(optimize a0)=%s", i, s0, s2))
+			}
+			if a3 != nil {
+				if s2, s3 := vfSetStr(vfReEnds(a2, t, i)), vfSetStr(vfReEnds(a3, t, i)); s3 != s2 {
+					rep("print-parse-of-optimised-changes-language", t, fmt.Sprintf("start %d: ends(a2)=%s ends(parse(print a2))=%s", i, s2, s3))
+				}
 			}
 		}
 		s := string(t)
@@ -623,7 +628,7 @@ func vfC27One(r *vfRand, p string, maxLen, extra int, hunting bool) bool {
 		vfOracleFail("optimize-mutates-its-argument", "OptimizeRegexp changed the regexp it was given", map[string]any{"pattern": p})
 		a0 = a0b
 	}
-	if vfC27Size(a0)+vfC27Size(a1)+vfC27Size(a2) > 3000 {
+	if vfC27Size(a0)+vfC27Size(a1)+2*vfC27Size(a2) > 3000 {
 		// too large to export: only check that the forms zoekt compiles (index/matchtree.go: regexp.MustCompile of the
 		// printed query regexp) are accepted
 		for _, x := range []struct {
@@ -636,7 +641,8 @@ func vfC27One(r *vfRand, p string, maxLen, extra int, hunting bool) bool {
 		}
 		return false
 	}
-	diffs, nsub, _ := vfC27Hunt(r, p, a0, a1, a2, maxLen, extra)
+	a3h, _ := syntax.Parse(syntaxutil.RegexpString(a2), regexpFlags)
+	diffs, nsub, _ := vfC27Hunt(r, p, a0, a1, a2, a3h, maxLen, extra)
 	for _, d := range diffs {
 		vfOracleFail(d.what, d.what+": "+vfC27Trunc(d.detail), map[string]any{"pattern": p, "subject": d.subject, "subject_runes": []rune(d.subject),
 			"printed": vfC27Trunc(printed), "optimised_printed": vfC27Trunc(syntaxutil.RegexpString(a2)), "detail": vfC27Trunc(d.detail)})
@@ -667,7 +673,19 @@ func vfC27One(r *vfRand, p string, maxLen, extra int, hunting bool) bool {
 		ss = "[" + strings.Join(samples, "; ") + "]"
 	}
 	// equal ASTs are shared through a let (Coq's front end is slow on large literal terms)
-	c0, c1, c2 := vfC27Coq(a0), vfC27Coq(a1), vfC27Coq(a2)
+	a3, err3 := syntax.Parse(syntaxutil.RegexpString(a2), regexpFlags)
+	if err3 != nil {
+		vfOracleFail("optimised-printed-form-does-not-parse", "RegexpString(OptimizeRegexp(Parse(p))) is rejected by Parse: "+vfC27Trunc(err3.Error()), map[string]any{"pattern": p})
+		return false
+	}
+	c0, c1, c2, c3 := vfC27Coq(a0), vfC27Coq(a1), vfC27Coq(a2), vfC27Coq(a3)
+	if c3 == c2 {
+		c3 = "a2"
+	} else if c3 == c0 {
+		c3 = "a0"
+	} else if c3 == c1 {
+		c3 = "a1"
+	}
 	if c1 == c0 {
 		c1 = "a0"
 	}
@@ -676,7 +694,7 @@ func vfC27One(r *vfRand, p string, maxLen, extra int, hunting bool) bool {
 	} else if c2 == c1 {
 		c2 = "a1"
 	}
-	coq := "(let a0 := " + c0 + " in\n let a1 := " + c1 + " in\n (a0, a1, " + c2 + ",\n " + ss + "))"
+	coq := "(let a0 := " + c0 + " in\n let a1 := " + c1 + " in\n let a2 := " + c2 + " in\n (a0, a1, a2, " + c3 + ",\n " + ss + "))"
 	cls := vfC27Class(a0)
 	nontrivial := len(cls) >= 3 || !a0.Equal(a2)
 	vfCase(coq, p, nontrivial, cls, map[string]any{"pattern": p, "printed": vfC27Trunc(printed), "optimised": vfC27Trunc(syntaxutil.RegexpString(a2)), "subjects_enumerated": nsub, "hunt": hunting})
